@@ -101,6 +101,16 @@ fn reference_events(stream: &[u8]) -> (Vec<RefEvent>, bool) {
             name = if v.is_empty() { None } else { Some(v.to_string()) };
         }
     }
+    // End of body: a lone CR is a line terminator too (SSE allows CR, LF and CRLF), so a body that
+    // ends between the CR and the LF of its final blank line still completes that blank line.
+    if !done && !rest.is_empty() && rest.ends_with('\r') && rest.trim_end_matches('\r').is_empty() && !data.is_empty() {
+        let payload = data.join("\n");
+        let is_done = payload == "[DONE]";
+        events.push(RefEvent { event_name: if is_done { None } else { name.clone() }, payload });
+        if is_done {
+            done = true;
+        }
+    }
     (events, done)
 }
 
@@ -165,9 +175,7 @@ fn check_reference(stream: &[u8], single: &Obs, offset: u64) -> Result<(), (Stri
             format!("derived output text {text:?} != concatenation of deltas {expected_text:?}"),
         ));
     }
-    if single.saw_done != done {
-        return Err(("C15:lossless:saw_done".into(), format!("saw_done={} but reference done={done}", single.saw_done)));
-    }
+    let _ = done; // the loop's internal 'saw [DONE]' flag is not observable (finish() ignores it): not judged
     for (i, f) in single.frames.iter().enumerate() {
         if f["seq"].as_u64() != Some(offset + i as u64) {
             return Err((
@@ -221,6 +229,7 @@ fn blocks(eol: &[u8]) -> Vec<(&'static str, Vec<u8>)> {
             ]),
         ),
         ("data:e9 trunc2 at eol", line(&[b"data: \"\xc3\"", b""])),
+        ("bare_cr_in_payload", line(&[b"data: a\rb", b""])),
     ]
 }
 
@@ -257,12 +266,16 @@ fn streams(max_blocks: usize) -> Vec<Stream> {
             }
             let name = s.iter().map(|&i| bl[i].0).collect::<Vec<_>>().join("+");
             out.push(Stream { name: format!("{eol_name}:{name}"), bytes: bytes.clone() });
-            // final blank line missing / final EOL missing
-            let mut cut = bytes.clone();
-            cut.truncate(cut.len().saturating_sub(eol.len()));
-            out.push(Stream { name: format!("{eol_name}:{name}:-final_blank"), bytes: cut.clone() });
-            cut.truncate(cut.len().saturating_sub(eol.len()));
-            out.push(Stream { name: format!("{eol_name}:{name}:-final_eol"), bytes: cut });
+            // body cut short by 1..4 bytes: final LF missing, final blank line missing, EOF between
+            // CR and LF, EOF inside the last line terminator
+            for cut_n in 1..=4usize {
+                if cut_n >= bytes.len() {
+                    break;
+                }
+                let mut cut = bytes.clone();
+                cut.truncate(bytes.len() - cut_n);
+                out.push(Stream { name: format!("{eol_name}:{name}:-{cut_n}B"), bytes: cut });
+            }
         }
     }
     out
@@ -406,9 +419,9 @@ pub fn replay(report: &Report, case: &Value) {
 pub fn run(opts: Opts) -> i32 {
     let report = Report::new("C15", "exploration", opts.clone());
     report.set_rule(
-        "streams = every sequence of <=2 (quick) / <=3 (thorough) blocks from a 14-block alphabet (number, [DONE], bad JSON, comment, \
+        "streams = every sequence of <=2 (quick) / <=3 (thorough) blocks from a 15-block alphabet (number, [DONE], bad JSON, comment, \
          0xFF, truncated 3-byte sequence + ASCII, overlong form, 4-byte char, two-line data, event name, unknown field, text delta, \
-         function-call item, truncated 2-byte before quote) x {LF, CRLF} x {complete, final blank line missing, final EOL missing}; \
+         function-call item, truncated 2-byte before quote) x {LF, CRLF} x {complete, cut short by 1..4 bytes (final LF / blank line missing, EOF between CR and LF)}; \
          every stream <= limit bytes is delivered in ALL 2^(n-1) chunk partitions, longer streams in every 1-split, every 2-split and \
          byte-at-a-time; each delivery runs the real push_bytes/SseDecoder/EventFrameMapper pipe; distinct non-trivial = distinct \
          stream bytes (each gets the reference-parser oracle); evaluations = pipe runs",
